@@ -532,11 +532,24 @@ func needles(plain []byte) [][]byte {
 	return out
 }
 
+// needlesSparse: the first and the last 24 bytes of a long plaintext only
+// (graphs with sparseLeak).
+func needlesSparse(plain []byte) [][]byte {
+	if len(plain) <= 48 {
+		return needles(plain)
+	}
+	return [][]byte{plain[:24], plain[len(plain)-24:]}
+}
+
 // searchLeak looks for plain in the file bytes: verbatim (a literal string or
 // stream data) and as hexadecimal digits of either case (upper is the
 // upper-cased copy of clear).
 func searchLeak(clear, upper, plain []byte) (kind string, off int, needle []byte) {
-	for _, nd := range needles(plain) {
+	return searchNeedles(clear, upper, needles(plain))
+}
+
+func searchNeedles(clear, upper []byte, nds [][]byte) (kind string, off int, needle []byte) {
+	for _, nd := range nds {
 		if k := bytes.Index(clear, nd); k >= 0 {
 			return "verbatim", k, nd
 		}
@@ -698,6 +711,9 @@ func judgeWritten(g *graph, c *Case, wr *written) (fa facts, out []failure) {
 
 	itemOf := map[int]int{}
 	for i, ref := range wr.refs {
+		if ref == 0 {
+			continue // not written (component metadata below PDF 1.4)
+		}
 		itemOf[int(ref.Number())] = i
 	}
 	nums := make([]int, 0, len(f.Objects))
@@ -727,6 +743,17 @@ func judgeWritten(g *graph, c *Case, wr *written) (fa facts, out []failure) {
 		if isItem && i < len(wr.roles) && wr.roles[i] != "" {
 			// the part the object played in the write order belongs to the class of the defect
 			cls += ":" + wr.roles[i]
+		}
+		if isItem && g.items[i].stream != nil {
+			if t := streamTag(g.items[i].stream.dict); t != "" {
+				cls += ":stream-tagged-" + t
+			}
+		}
+		if isItem && g.items[i].embedTitle != "" {
+			cls += ":component-metadata-embedded"
+		}
+		if c.Graph == "len" {
+			cls += ":stream-length-space"
 		}
 		if n == metaNum && plainMeta {
 			// exempt from encryption: must be readable as it is
@@ -770,6 +797,20 @@ func judgeWritten(g *graph, c *Case, wr *written) (fa facts, out []failure) {
 			continue
 		}
 		delete(itemOf, n)
+		if it.embedTitle != "" {
+			// the packet is serialised by the library: only its title is known
+			if !o.IsStream {
+				fail("value-kind", "%s %d %d is not a stream", it.name, o.Num, o.Gen)
+				continue
+			}
+			body, err := pdffile.DecodeFilters(val, raw)
+			if err != nil {
+				fail("independent-decode-error:"+cls, "%s %d %d: %v", it.name, o.Num, o.Gen, err)
+			} else if !bytes.Contains(body, []byte(it.embedTitle)) {
+				fail("decrypted-stream-differs:"+cls, "%s %d %d: the decrypted and decoded stream (%d bytes %q) does not hold the title of the packet", it.name, o.Num, o.Gen, len(body), clip(body, 32))
+			}
+			continue
+		}
 		if it.stream == nil {
 			want := hx.FromPdf(it.obj)
 			if o.IsStream {
@@ -858,18 +899,28 @@ func judgeWritten(g *graph, c *Case, wr *written) (fa facts, out []failure) {
 	}
 	upper := bytes.ToUpper(clear) // hexadecimal strings may use either case
 	leak := func(class, where string, plain []byte) {
-		if kind, k, nd := searchLeak(clear, upper, plain); kind != "" {
+		nds := needles(plain)
+		if g.sparseLeak {
+			nds = needlesSparse(plain)
+		}
+		if kind, k, nd := searchNeedles(clear, upper, nds); kind != "" {
 			fail("leak:"+kind+":"+class+":"+fa.cfg(), "plaintext %q of %s occurs %s at offset %d of the file", nd, where, kind, k)
 		}
 	}
 	for _, it := range g.items {
 		switch {
+		case it.embedTitle != "":
+			leak("component-metadata", it.name, []byte(it.embedTitle))
 		case it.stream != nil:
 			allStrings(hx.FromPdf(it.stream.dict), func(s []byte) { leak("stream-dictionary-string", it.name, s) })
+			tag := ""
+			if t := streamTag(it.stream.dict); t != "" {
+				tag = ":stream-tagged-" + t
+			}
 			if len(it.stream.filters) > 0 {
-				leak("filtered-stream-body", it.name, it.stream.body)
+				leak("filtered-stream-body"+tag, it.name, it.stream.body)
 			} else {
-				leak("stream-body", it.name, it.stream.body)
+				leak("stream-body"+tag, it.name, it.stream.body)
 			}
 		case it.compressed:
 			allStrings(hx.FromPdf(it.obj), func(s []byte) { leak("string-in-object-stream", it.name, s) })
